@@ -297,6 +297,28 @@ func c12Monitor(args []string) int {
 				rep.Violate("bestmove-count", in(), fmt.Sprintf("%d go commands, %d bestmove lines", goCount, got))
 				goCount = got
 			}
+			// setoption with a spin value: exactly the TTSize line changes (0 is the announced minimum)
+			if rng.Chance(25) {
+				cfgA := s.configLines()
+				v := []string{"0", "1", "2", "3", "4", "0"}[rng.Intn(6)]
+				do("setoption name Hash value " + v)
+				cfgB := s.configLines()
+				var changed []string
+				for k, val := range cfgB {
+					if cfgA[k] != val {
+						changed = append(changed, k+": "+cfgA[k]+" -> "+val)
+					}
+				}
+				rep.Stats["setoption_commands"]++
+				for _, c := range changed {
+					if !strings.HasPrefix(c, "TTSize") {
+						rep.Violate("setoption-does-not-change-exactly-the-named-option", in(), fmt.Sprintf("Hash value %s changed %v", v, changed))
+						break
+					}
+				}
+				do("setoption name Hash value 2")
+				do("setoption name Use_Hash value true")
+			}
 			// setoption: exactly the named option changes
 			if rng.Chance(40) {
 				name := options[rng.Intn(len(options))]
